@@ -19,7 +19,7 @@ MetaV  == {"nil", "empty", "full"}
 NlV    == {"nil", "empty", "nodes"}
 RootsV == {"none", "one", "many", "dangling", "dup", "emptyid"}
 NodesV == {"plain", "nilnode", "dupid", "emptyid", "badenum", "negenum", "rich"}
-EdgesV == {"none", "tree", "cycle", "cycle-tail", "island-cycle", "deps-cycle", "dup-deps", "dag", "dangling", "niledge", "dupedge", "emptyto", "selfloop", "negtype", "shared-child", "random"}
+EdgesV == {"none", "tree", "cycle", "cycle-tail", "island-cycle", "deps-cycle", "dup-deps", "dag", "dangling", "niledge", "dupedge", "emptyto", "selfloop", "negtype", "shared-child", "random", "ladder"}
 DtV    == {"none", "typed", "nilall", "other-nilname", "other-named", "runtime", "badenum", "negenum"}
 ExtraV == {"none", "nilperson", "nilextref", "niltool", "nilauthor", "nildoctype", "paren-person"}
 Shapes == [meta : MetaV, nl : NlV, roots : RootsV, nodes : NodesV, edges : EdgesV, dt : DtV, extra : ExtraV]
